@@ -20,7 +20,7 @@ RULE = ("E3: BFS with dedup on (index, bitfield, model) over all is_valid/strike
         "persist/reload probe in every state; E1: every arrival sequence up to length L over genuine requests with numbers "
         "{0,1,2,w-1,w,w+1,3w,2^40-1}, their replays, recorded requests with a rewritten outer code (0.00, 7.01, 2.04), tag-flipped and far-ahead forgeries, and Echo variants for an uninitialised window, "
         "and (initialised window) responses of the peer carrying its own Partial IV, through unprotect(); state really lost: a file-backed context accepts 1-3 requests, the process dies, after reload nothing is accepted "
-        "before a fresh Echo exchange")
+        "before a fresh Echo exchange; sequence files that say nothing usable about what was received")
 ASSUMPTIONS = [
     "stand-in crypto modules as for C11",
     "the Echo value is set on the context directly (the secrets seam); its generation is not the subject",
@@ -340,10 +340,54 @@ def lost_state(res, k, start, respond, protect_first=False):
         r.close()
 
 
+def odd_start(res, seq):
+    """A sequence file that says nothing (usable) about what has been received - written by a provisioning tool, or damaged: the
+    context either refuses to load or starts with its window uninitialised; in no case does it accept requests the peer may have
+    sent before without an Echo exchange."""
+    from .c13_nonce import Run
+    case = {"family": "odd-start", "seq": seq}
+    res.evaluations += 1
+    import gc
+    import sys
+    hook = sys.unraisablehook
+    sys.unraisablehook = lambda u: None      # a context refused at load complains from its __del__ about its scratch directory: not our subject
+    try:
+        try:
+            r = Run(1, 10000, seq_json=seq)
+        except Exception as e:
+            e = None
+            gc.collect()
+            res.outcomes.add(("odd-start", "refused"))
+            res.signatures.add(("odd-start", repr(seq)))
+            return            # refused at load: safe
+    finally:
+        gc.collect()
+        sys.unraisablehook = hook
+    try:
+        for n in (0, 1, 5, 40):
+            r.peer.sender_sequence_number = n
+            outer, _ = r.peer.protect(Message(code=codes.GET, uri_path=["y"]))
+            try:
+                r.ctx.unprotect(wire(outer)[0])
+                res.violate(Violation("accepted-while-state-lost", "refused until a fresh Echo exchange (nothing is known about what was received)",
+                                      "request %d accepted" % n, "oscore.py:FilesystemSecurityContext._load", case, key="odd-start"))
+                return
+            except o.ProtectionInvalid:
+                pass
+        res.traces += 1
+        res.outcomes.add(("odd-start", "uninitialised"))
+        res.signatures.add(("odd-start", repr(seq)))
+    finally:
+        r.close()
+
+
 def job(arg):
     kind, item, tier = arg
     res = Result()
     if kind == "lost":
+        for seq in ({"next-to-send": 7}, {"next-to-send": 7, "received": None}, {"next-to-send": 0, "received": "unknown"},
+                    {"next-to-send": 7, "received": {}}, {"next-to-send": 7, "received": "lost"}, {"next-to-send": 7, "received": []}):
+            odd_start(res, seq)
         for k in (1, 2, 3):
             for start in (1, 10):
                 for respond in (False, True):
@@ -385,7 +429,9 @@ def run(tier, seed, jobs):
 
 def replay(case, scenario, seed):
     res = Result()
-    if case["family"] == "lost-state":
+    if case["family"] == "odd-start":
+        odd_start(res, case["seq"])
+    elif case["family"] == "lost-state":
         lost_state(res, case["accepted_before"], case["chunk_start"], case["respond"], case.get("protect_first", False))
     elif case["family"] == "uninit":
         uninit_probe(res, case["size"])
